@@ -439,6 +439,70 @@ def clause9_mapped_file(ctx, P):
            ("%d mmap site(s); the mapping is only passed with its length" % n if n else "no mmap of the credential file found"))
 
 
+def clause10_commit_and_salt(ctx, P, cg):
+    """(a) nothing fails after the commit point: once rename() has replaced the credential file, write_user_data() reports success -
+    a failure reported from there makes change_password() take the change back in memory while it is in force on disk;
+    (b) the installer keeps its promise: when cJSON_SetValuestring() fails, the item still has its old string (change_password()
+    restores nothing on that path), i.e. no path that returns NULL has freed or overwritten object->valuestring;
+    (c) a salt consists of salt characters: the table of valid characters is indexed modulo its number of CHARACTERS (the
+    array is one longer: its terminator is not a salt character - crypt() answers such a salt with a failure token that is then
+    stored as the hash)"""
+    w = P.fn("auth_file.c:write_user_data")
+    rn = w.calls("rename")
+    bad = None
+    n = 0
+    for v in Q.path_views(ctx, P, w):
+        for c in rn:
+            ok_ = v.has_atom(lambda a, p, c=c: a[0] == "cmp" and a[2][0] == "call" and a[2][3] == c.id and a[3] == ("const", 0) and
+                             (a[1] if p else Q.negate_pred(a[1])) in ("sge", "eq"))
+            if ok_:
+                n += 1
+                if v.ret_const() != 0:
+                    bad = v
+    ctx.ob("C20.3 R-COMMIT", w, "nothing-fails-after-the-rename", bad is None and n > 0,
+           "write_user_data() can report a failure on a path on which rename() has already put the new file in place: the caller takes "
+           "the change back in memory and answers with an error, the disk holds the new credentials", witness=bad.witness() if bad else None)
+    g = P.fn("cJSON.c:cJSON_SetValuestring")
+    obj = ("param", 0, g.params[0]["name"])
+    vs = ("field", obj, "struct.cJSON", "valuestring")
+    badi = None
+    ni = 0
+    for v in Q.path_views(ctx, P, g):
+        ro = v.ret_operand()
+        if ro is None or not P.is_null(v.resolve(ro)):
+            continue
+        ni += 1
+        for _, i in v.insts():
+            if i.op == "store" and P.term(g, i.a[1]) == vs:
+                badi = (v, i, "overwritten")
+            if i.op == "call" and any(P.term(g, a) == ("load", vs) for a in i.a) and \
+                    ((i.callee and P.srcname_of(i.callee) in ("cJSON_free", "free", "cjet_free")) or
+                     (not i.callee and cg.icall_field(g, i) == ("struct.internal_hooks", 1)) or
+                     (not i.callee and P.term(g, i.ind) == ("load", ("cgep", ("global", "global_hooks"), (0, 1))))):
+                badi = (v, i, "released")
+    ctx.ob("C20.4 R-COMMIT", g, "failed-install-keeps-the-old-string", badi is None and ni > 0,
+           ("cJSON_SetValuestring() returns NULL on a path on which the item's old string has been %s (%s): change_password() answers "
+            "with an error and leaves the account without a hash - the next look-up crashes or nobody can log in" %
+            (badi[2], badi[1].loc)) if badi else "a failing cJSON_SetValuestring() leaves the item as it was", witness=badi[0].witness() if badi else None)
+    ns = 0
+    bads = None
+    for f in P.own_functions():
+        if f.base != "auth_file.c":
+            continue
+        for i in f.all_insts():
+            if i.op != "load":
+                continue
+            t = P.term(f, i.a[0])
+            if t[0] == "index" and t[1][0] == "str" and t[2][0] == "op" and t[2][1] == "urem" and t[2][2][1][0] == "const":
+                ns += 1
+                if t[2][2][1][1] > len(t[1][1]):
+                    bads = (f, i, t[2][2][1][1], len(t[1][1]))
+    ctx.ob("C20.4 R-BOUND", P.fn("auth_file.c:change_password"), "salt-characters-come-from-the-table", bads is None and ns >= 1,
+           ("%s() picks a salt character at index (random mod %d) of a table of %d characters at %s: the index behind the last "
+            "character yields the terminating NUL, the salt is cut short and crypt()'s failure token is stored as the new hash" %
+            (bads[0].srcname, bads[2], bads[3], bads[1].loc)) if bads else "%d table look-up(s) stay inside the characters" % ns)
+
+
 RESOLVERS = ("realpath", "canonicalize_file_name")
 
 
@@ -552,6 +616,7 @@ def run(ctx):
         clause7_salt_method(ctx, P)
         clause8_account_lookups(ctx, P)
         clause9_mapped_file(ctx, P)
+        clause10_commit_and_salt(ctx, P, cg)
         clause2_atomic(ctx, P, cg)
         clause3_write(ctx, P, cg)
         clause4_effective(ctx, P, cg)
